@@ -67,7 +67,9 @@ def point_based_value_iteration(
         else:
             horizon = value_convergence_epsilon / reward_range
             horizon = np.log(horizon) / np.log(pomdp.discount_rate)
-            horizon = int(np.ceil(horizon))
+            # a threshold at or above the reward range gives a horizon <= 0:
+            # always do at least one backup
+            horizon = max(1, int(np.ceil(horizon)))
 
     tf = pomdp.transition_matrix
     sa_rf = pomdp.state_action_reward_matrix
